@@ -66,6 +66,9 @@ def realise(hist, eol=b"\n", xref_w=(1, 4, 2), zero_type_width=False):
                              # ... and how cross-reference and object streams are packed, and whether the objects a
                              # later revision redefines carry generation 1 (a reused free entry)
                              hybrid_free=(int(zero_type_width) == 1),
+                             # variant 2: the newest trailer omits /Info when the revision brings none of its own - the
+                             # document then has no Info (the trailer is the newest one's, not a merge of all trailers)
+                             drop_info=(int(zero_type_width) == 2 and k == len(hist) and k > 1),
                              xref_pack=["flate", "pngmix" if len(hist) % 2 else "png", "none"][int(zero_type_width)],
                              objstm_pack=["flate", "none", "hex"][int(zero_type_width)],
                              gens={p + 2: 1 for p in r["defs"] if p not in r["packed"]} if (zero_type_width == 1 and k > 1) else None,
@@ -168,7 +171,9 @@ def direction_a1(ck, dev):
                                      % (i, m["kind"], ids, sorted(m["inuse"])), replay)
             root = doc.catalog.get("Rev")
             info = doc.info[0].get("Rev") if doc.info else None
-            if root != r["root"] or info != r["root"]:
+            last = r["hist"][-1]
+            want_info = None if (zw == 2 and len(r["hist"]) > 1 and not last["newroot"]) else r["root"]
+            if root != r["root"] or info != want_info:
                 ck.violation("newest-trailer", "catalog from revision %r, info from %r, newest is %r" % (root, info, r["root"]), replay)
             nontriv = len(r["hist"]) > 1 or any(x["packed"] for x in r["hist"])
             ck.case(1, ("x", hk[0], r["caching"], json.dumps(r["calls"])) if nontriv else None)
@@ -248,6 +253,10 @@ def direction_a3(ck):
             "startxref-garbage": data.replace(b"startxref" + eol + b"%d" % xp, b"startxref" + eol + b"x%d" % xp),
             "xref-keyword": data[:xp] + b"xrfe" + data[xp + 4:],
             "xref-subsection": data[:xp] + data[xp:].replace(b"0 %d" % (max(objs) + 1), b"0 zz", 1),
+            # damage at entry level: the header announces one entry too many (the `trailer` line is read as an entry),
+            # an entry has lost a field
+            "xref-count": data[:xp] + data[xp:].replace(b"0 %d" % (max(objs) + 1), b"0 %d" % (max(objs) + 2), 1),
+            "xref-entry": data[:xp] + data[xp:].replace(b" 00000 n", b" n", 1),
         }
         for kind, d in damaged.items():
             if d == data:
